@@ -67,6 +67,7 @@ type Thread struct {
 	Status   TStatus
 	Parked   bool // at a visible operation, waiting to be scheduled
 	Granted  bool // the scheduler allowed the next visible operation
+	ParkNext bool // park at the next instruction boundary (set by an operation after which others may run at once)
 	Alt      int  // chosen alternative for select
 	Panic    *PanicRec
 	NNondet  int // per-thread counter for deterministic names
